@@ -20,6 +20,81 @@ def _build(n, edges):
     return g
 
 
+def check_incremental(n, edges, out):
+    """The same graph built edge by edge (the way the workload loader connects a job
+    graph) with queries *between* the additions: every answer must be right for the
+    edges present at that moment -- nothing computed earlier may survive an edit."""
+    from workload.graph import Graph
+
+    g = Graph()
+    for i in range(n):
+        g.add_node(i)
+    ev = 0
+    present = []
+    for k in range(len(edges) + 1):
+        par = {i: [u for (u, v) in present if v == i] for i in range(n)}
+        R = D.reach(n, tuple(present))
+        ts = g.topological_sort()
+        ev += 1
+        pos = {x: i for i, x in enumerate(ts)}
+        okp = sorted(ts) == list(range(n)) and all(pos[u] < pos[v] for u, v in present)
+        memo = {}
+
+        def dmax(x):
+            if x not in memo:
+                memo[x] = 1 if not par[x] else 1 + max(dmax(p) for p in par[x])
+            return memo[x]
+
+        okd = all(g.get_node_depth(i) == dmax(i) for i in range(n))
+        oka = all(g.are_dependent(a, b) == ((b in R[a]) or (a in R[b]))
+                  for a in range(n) for b in range(n) if a != b)
+        ev += n + n * (n - 1)
+        if not (okp and okd and oka):
+            out.append({"rule": "incremental.stale_answer",
+                        "msg": f"n={n} edges added so far {present} (of {list(edges)}): "
+                               f"topological_sort={ts} ok={okp}, depths ok={okd}, "
+                               f"are_dependent ok={oka}",
+                        "case": {"n": n, "edges": list(edges)}})
+            break
+        if k < len(edges):
+            u, v = edges[k]
+            g.add_child(u, v)
+            present.append((u, v))
+    return ev
+
+
+def check_cyclic(n, edges, out):
+    from workload.graph import Graph
+
+    g = _build(n, edges)
+    try:
+        ts = g.topological_sort()
+        out.append({"rule": "cycle.not_reported",
+                    "msg": f"n={n} edges={list(edges)}: topological_sort "
+                           f"returned {ts} on a cyclic graph",
+                    "case": {"n": n, "edges": list(edges), "cyclic": True}})
+    except RuntimeError:
+        pass
+    # the same digraph built edge by edge with a query before every addition
+    g2 = Graph()
+    for i in range(n):
+        g2.add_node(i)
+    for u, v in edges:
+        try:
+            g2.topological_sort()
+        except RuntimeError:
+            pass
+        g2.add_child(u, v)
+    try:
+        ts = g2.topological_sort()
+        out.append({"rule": "cycle.not_reported_after_incremental_build",
+                    "msg": f"n={n} edges={list(edges)}: built edge by edge with "
+                           f"queries in between, topological_sort returned {ts}",
+                    "case": {"n": n, "edges": list(edges), "cyclic": True}})
+    except RuntimeError:
+        pass
+
+
 def check_graph(n, edges, weight_vectors, out, with_tasks=False):
     """Run every routine on one labelled DAG; append violations to out."""
     g = _build(n, edges)
@@ -222,6 +297,10 @@ def job(item, tier):
                 dist.append(hash((n, edges)))
             res["transitions"] += check_graph(n, edges, wvs, out,
                                               with_tasks=(n <= 4))
+            if n <= 4:
+                res["transitions"] += check_incremental(n, edges, out)
+                res["stats"]["incremental_constructions"] = \
+                    res["stats"].get("incremental_constructions", 0) + 1
             if len(out) > 30:
                 del out[30:]
         res["states"] = cnt
@@ -238,15 +317,7 @@ def job(item, tier):
         cnt = 0
         for edges in D.cyclic_digraphs(n):
             cnt += 1
-            g = _build(n, edges)
-            try:
-                ts = g.topological_sort()
-                out.append({"rule": "cycle.not_reported",
-                            "msg": f"n={n} edges={list(edges)}: topological_sort "
-                                   f"returned {ts} on a cyclic graph",
-                            "case": {"n": n, "edges": list(edges), "cyclic": True}})
-            except RuntimeError:
-                pass
+            check_cyclic(n, edges, out)
             if len(out) > 30:
                 del out[30:]
         res["states"] = cnt
@@ -265,16 +336,13 @@ def job(item, tier):
     elif kind == "case":
         c = item[1]
         if c.get("cyclic"):
-            g = _build(c["n"], [tuple(e) for e in c["edges"]])
-            try:
-                g.topological_sort()
-                out.append({"rule": "cycle.not_reported", "msg": "replayed", "case": c})
-            except RuntimeError:
-                pass
+            check_cyclic(c["n"], [tuple(e) for e in c["edges"]], out)
         else:
             wv = [c.get("weights")] if "weights" in c else [None]
             check_graph(c["n"], [tuple(e) for e in c["edges"]], wv, out,
                         with_tasks=c["n"] <= 4)
+            if c["n"] <= 4:
+                check_incremental(c["n"], [tuple(e) for e in c["edges"]], out)
     return res
 
 
